@@ -116,6 +116,15 @@ func (e *Engine) invokeValue(st *State, g *G, fr *Frame, callee Value, args []Va
 			f.Signature.Results().Len() == 1 && f.Signature.Results().At(0).Type().String() == "string" {
 			kind, ok = "opaque-string", true
 		}
+		if ok && strings.HasPrefix(kind, "redirect:") {
+			// the call is served by a harness function of the same signature (an explicit environment model)
+			tgt := e.funcByName(strings.TrimPrefix(kind, "redirect:"))
+			if tgt == nil {
+				return e.abort(st, "redirect target not found: "+kind), false
+			}
+			e.pushFrame(st, g, tgt, args, nil, retTo)
+			return nil, true
+		}
 		if ok && kind != "real" {
 			switch kind {
 			case "fresh-copy":
@@ -867,4 +876,19 @@ func (e *Engine) snapshot(st *State, v Value, depth int) Value {
 		return x
 	}
 	return v
+}
+
+
+// funcByName finds a package-level function by its full name ("pkgpath.Name").
+func (e *Engine) funcByName(full string) *ssa.Function {
+	i := strings.LastIndex(full, ".")
+	if i < 0 {
+		return nil
+	}
+	for _, p := range e.prog.AllPackages() {
+		if p.Pkg.Path() == full[:i] {
+			return p.Func(full[i+1:])
+		}
+	}
+	return nil
 }
